@@ -6,14 +6,14 @@ CONSTANTS
   MaxAtt = 3
   MaxCuts = 1
   MaxProxies = 1
-  Dev_NoCleanup = TRUE
-  Dev_RouterFirst = TRUE
-  Dev_NoLease = TRUE
-  Dev_StagingUnchecked = TRUE
+  Dev_NoCleanup = FALSE
+  Dev_RouterFirst = FALSE
+  Dev_NoLease = FALSE
+  Dev_StagingUnchecked = FALSE
   Dev_IdReuse = FALSE
   Dev_LookupStaged = FALSE
   Dev_RemovedForStaged = FALSE
   Dev_EnableErrorIgnored = FALSE
-INVARIANTS UniqueNames
+INVARIANTS TypeOK UniqueNames IdsIncreasing VisibleExactly EventsOnce LiveVisible VisibleReachable StagedOwned NoOrphan TerminatedInvisible
 VIEW MCView
 CHECK_DEADLOCK FALSE
